@@ -97,13 +97,29 @@ Definition step_loc (loc_of : nat -> nat) (s : svc) (o : op) : svc :=
 
 (* ---------- correspondence ---------- *)
 Record svc_case := { sv_ops : list op; sv_obs_installed : list cfg (* after every op *);
-                     sv_obs_hash : option nat; sv_obs_custom : list nat; sv_obs_pending : nat }.
+                     sv_obs_hash : option nat; sv_obs_custom : list nat; sv_obs_pending : nat;
+                     sv_obs_customs : list (list nat) (* registered tracepoints after every op *) }.
 Fixpoint trace (s : svc) (ops : list op) : list cfg * svc :=
   match ops with
   | [] => ([], s)
   | o :: r => let s1 := step true s o in let '(t, s2) := trace s1 r in (installed s1 :: t, s2)
   end.
+Fixpoint ctrace (s : svc) (ops : list op) : list (list nat) :=
+  match ops with
+  | [] => []
+  | o :: r => let s1 := step true s o in map snd (custom s1) :: ctrace s1 r
+  end.
 Definition check_svc_case (c : svc_case) : bool :=
   let '(t, s) := trace svc0 (sv_ops c) in
   list_eqb (list_eqb Nat.eqb) t (sv_obs_installed c) && option_eqb Nat.eqb (hash s) (sv_obs_hash c)
   && list_eqb Nat.eqb (map snd (custom s)) (sv_obs_custom c) && Nat.eqb (length (pending s)) (sv_obs_pending c).
+(* per-property projections.  Registered tracepoints carry numbers from 100 up, polled ones below.
+   C12 (convergence to the service's configuration): the POLLED part of what the handler acts on after every step, the hash,
+   the number of pending update tasks.  C13 (handles): the service's registrations after every step. *)
+Definition polled_part (c : cfg) : cfg := filter (fun n => (n <? 100)%nat) c.
+Definition check_svc_case_polled (c : svc_case) : bool :=
+  let '(t, s) := trace svc0 (sv_ops c) in
+  list_eqb (list_eqb Nat.eqb) (map polled_part t) (map polled_part (sv_obs_installed c))
+  && option_eqb Nat.eqb (hash s) (sv_obs_hash c) && Nat.eqb (length (pending s)) (sv_obs_pending c).
+Definition check_svc_case_reg (c : svc_case) : bool :=
+  list_eqb (list_eqb Nat.eqb) (ctrace svc0 (sv_ops c)) (sv_obs_customs c).
